@@ -58,7 +58,7 @@ def generate(seed, tier):
     iris = sorted({ns + loc for ns in nss for loc in g.sample(LOCALS, 3)})[:18]
     nh = g.randint(1, 3)
     cfg = {"store": g.choice(["memory", "memory", "simple"]), "handles": [g.choice(["none", "core", "rdflib", "core"]) for _ in range(nh)], "iris": iris, "nss": nss}
-    w = {"bind": g.choice([2, 4, 6]), "qname": g.choice([2, 4, 8]), "parse": g.choice([0, 1]), "serialize": g.choice([0, 1]), "expand": 1}
+    w = {"bind": g.choice([2, 4, 6]), "qname": g.choice([2, 4, 8]), "parse": g.choice([0, 1]), "serialize": g.choice([0, 1]), "expand": 1, "reset": g.choice([0, 0, 1]), "storebind": g.choice([0, 0, 1])}
     nsteps = g.randint(3, 30 if tier == "quick" else 60)
     ops = []
     for i in range(nsteps):
@@ -82,6 +82,10 @@ def generate(seed, tier):
         elif kind == "expand":
             op["prefix"] = g.pick(prefixes)
             op["local"] = g.pick(LOCALS)
+        elif kind == "storebind":
+            op["prefix"] = g.pick(prefixes)
+            op["ns"] = g.pick(nss)
+            op["override"] = g.chance(0.5)
         ops.append(op)
     return {"property": ID, "config": cfg, "ops": ops}
 
@@ -226,6 +230,12 @@ def execute(trace, ctx):
             else:
                 ctx.log(k, f"h{h} {op['format']} {len(out)}")
             last_bind_by[0] = h
+        elif k == "reset":
+            nm.reset()
+        elif k == "storebind":
+            # a binding made directly on the shared store (what another library layer or another manager does)
+            store.bind(op["prefix"], URIRef(op["ns"]), override=op["override"])
+            last_bind_by[0] = -1
         elif k == "expand":
             b = store.namespace(op["prefix"])
             try:
@@ -237,7 +247,7 @@ def execute(trace, ctx):
         else:
             raise ValueError(k)
         now = invariants(f"after op uid={op['uid']} {k}")
-        if now != before and k == "bind":
+        if now != before and k in ("bind", "storebind"):
             ctx.probe("bind-changed-map")
         before = now
         if k == "bind":
